@@ -12,7 +12,7 @@ import time
 
 from mc import boundx
 from mc import c15_common as cc
-from mc import c15_ldap, c15_names, c15_rules, c15_trace, c15_zk
+from mc import c15_ldap, c15_ldapdn, c15_names, c15_rules, c15_trace, c15_zk
 
 BUDGET = {'quick': 240, 'thorough': 540}
 
@@ -22,12 +22,12 @@ BUDGET = {'quick': 240, 'thorough': 540}
 HASH_INSENSITIVE = True
 
 SUBS = [c15_rules.SUB, c15_names.NAMES, c15_names.UID, c15_trace.SUB,
-        c15_zk.SUB, c15_ldap.SUB]
+        c15_zk.SUB, c15_ldap.SUB, c15_ldapdn.SUB]
 BY_NAME = {s.name: s for s in SUBS}
 # sub-checks whose encoding must also be a function of the value (a rule file
 # / node is looked up by re-encoding the value; zk check_content compares
 # payload bytes).  LDAP keyed lists may be written in any member order.
-SPLIT_CHECKED = {'rules', 'names', 'uid', 'trace', 'zk'}
+SPLIT_CHECKED = {'rules', 'names', 'uid', 'trace', 'zk', 'ldapdn'}
 CONFIRM_PER_SITE = 300
 
 RULE = ('a case is non-trivial when the value carries something the format '
@@ -35,7 +35,9 @@ RULE = ('a case is non-trivial when the value carries something the format '
         'separator characters in proid/app (names), seed >= 62 (uid), '
         'None or separator characters in a field (trace), nesting >= 2 or '
         'multi-key dict (zk), option-indexed attributes or > 3 attributes, '
-        'resp. an update that changes the decoded object (ldap)')
+        'resp. an update that changes the decoded object (ldap), nested '
+        'tenant / separator in the id / more than one cell or tenant in the '
+        'directory (ldapdn)')
 
 ASSUMPTIONS = [
     "trace: ',' and '/' are reserved by the event-node name format and do not "
@@ -67,6 +69,13 @@ ASSUMPTIONS = [
     "attribute is requested (RFC 4511 4.5.1.8; Admin.update relies on it to "
     "delete stale list members) and fetched values are either schema-typed "
     "(int/bool) or raw strings; both models are swept",
+    "ldap dn: ids contain none of the characters the DN / id formats reserve "
+    "(',', '=', '+', '/', ':' inside a segment, '*', parentheses) and no case "
+    "variants; the in-memory directory implements BASE / SUBTREE scope by DN "
+    "suffix, AND-of-(attr=glob) filters, requires the parent entry to exist "
+    "and returns multi-valued attributes in the order written (create() "
+    "stores the whole id list in the naming attribute and from_entry reads "
+    "its first value)",
 ]
 
 
@@ -204,7 +213,8 @@ def run(ctx):
             'caps_hit': list(res.caps_hit),
             'sub_checks': per_sub,
             'tags': {k: v for k, v in sorted(res.counters.items())
-                     if k.count('.') >= 2 or k.startswith('trace.route')},
+                     if k.count('.') >= 2 or
+                     k.startswith(('trace.route', 'ldapdn.'))},
             'chunks': [res.chunks_done, res.chunks_total],
             'sweep_wall_s': round(res.wall_s, 1),
             'total_wall_s': round(time.perf_counter() - t0, 1),
